@@ -151,3 +151,39 @@ theorem sq_sum_eq_dist2 (cx cy cz i j k : Int) : sq (i - cx) + sq (j - cy) + sq 
 theorem sq_sum_eq_dist2xy (cx cy cz i j : Int) : sq (i - cx) + sq (j - cy) = dist2xy (cx, cy, cz) i j := by
   simp only [dist2xy, sq_eq_pow]
 end CryoCat.C13
+
+namespace CryoCat.C13
+/-! numpy index wrapping: inside the box nothing wraps -/
+theorem wrapIdx_of_nonneg (n : Nat) (c : Int) (h : 0 ≤ c) : wrapIdx n c = c := by
+  unfold wrapIdx; rw [if_neg (not_lt.2 h)]
+
+theorem wrapIdx_of_neg (n : Nat) (c : Int) (h : c < 0) : wrapIdx n c = c + n := by
+  unfold wrapIdx; rw [if_pos h]
+
+theorem idxOk_iff (n : Nat) (c : Int) : idxOk n c = true ↔ -(n : Int) ≤ c ∧ c < (n : Int) := by
+  simp [idxOk]
+
+theorem idxOk_of_inBox (n : Nat) (c : Int) (h0 : 0 ≤ c) (h1 : c < (n : Int)) : idxOk n c = true := by
+  rw [idxOk_iff]; omega
+
+/-- an accepted index addresses a voxel of the box -/
+theorem wrapIdx_inBox (n : Nat) (c : Int) (h : idxOk n c = true) : 0 ≤ wrapIdx n c ∧ wrapIdx n c < (n : Int) := by
+  rw [idxOk_iff] at h
+  unfold wrapIdx; split <;> omega
+
+theorem sphereVox_inBox (nx ny nz : Nat) (cx cy cz : Int) (r : Rat) (hx : 0 ≤ cx) (hy : 0 ≤ cy) (hz : 0 ≤ cz) (i j k : Int) :
+    sphereVox nx ny nz cx cy cz r i j k = sphereIn cx cy cz r i j k := by
+  unfold sphereVox sphereIn
+  rw [wrapIdx_of_nonneg _ _ hx, wrapIdx_of_nonneg _ _ hy, wrapIdx_of_nonneg _ _ hz]
+  cases (i == cx && j == cy && k == cz) <;> simp
+
+theorem cylVox_inBox (nx ny nz : Nat) (cx cy cz : Int) (r : Rat) (h : Int) (hx : 0 ≤ cx) (hy : 0 ≤ cy) (i j k : Int) :
+    cylVox nx ny nz cx cy cz r h i j k = cylIn nz cx cy cz r h i j k := by
+  unfold cylVox cylIn discIn
+  rw [wrapIdx_of_nonneg _ _ hx, wrapIdx_of_nonneg _ _ hy]
+  cases (i == cx && j == cy) <;> simp
+
+theorem trunc_natCast (n : Nat) : trunc (n : Rat) = (n : Int) := by
+  have := trunc_intCast (n : Int)
+  simpa using this
+end CryoCat.C13
